@@ -318,6 +318,12 @@ class _TrimSim:
             base = self.ev(e.value, env, st)
             if base[0] == "chain" and isinstance(e.slice, ast.Slice):
                 return ("chain", base[1], base[2] + ("[%s]" % self.text(e.slice, env),))
+            # a slice object passed around: xs[kept] with kept = slice(a, b)
+            sl = e.slice
+            if isinstance(sl, ast.Name) and sl.id in env and env[sl.id][0] == "expr":
+                sl = env[sl.id][1]
+            if base[0] == "chain" and isinstance(sl, ast.Call) and call_name(sl) == "slice":
+                return ("chain", base[1], base[2] + ("[%s]" % self.text(sl, env),))
             if base[0] == "chain":
                 return ("elem", base[1], base[2], "[%s]" % self.text(e.slice, env))
             if base[0] == "elem":
@@ -378,7 +384,13 @@ class _TrimSim:
                             st.changed = s.value.value
             for c in ast.walk(s.value):
                 if isinstance(c, ast.Call) and (call_name(c) or "").startswith("shift_poly") and c.args:
-                    a = self.ev(c.args[0], env, st)
+                    from ..engine import argswap as _as
+                    hd = self.prog.try_func("src/polya_verification.py", (call_name(c) or "").split(".")[-1])
+                    exon_arg = c.args[0]
+                    if hd is not None:                       # the exon list by parameter name, whatever its position
+                        bnd = _as.bind_args(c, hd)
+                        exon_arg = next((v for k, v in bnd.items() if "exon" in k and "count" not in k), exon_arg)
+                    a = self.ev(exon_arg, env, st)
                     if a[0] != "chain" or a[1] != "read_exons":
                         st.bad.setdefault("shift", "%s is not given the exon list" % src(c)[:50])
             return [(st, env)]
@@ -492,9 +504,12 @@ def q2_guard(prog, ctx, tag):
     checked = 0
     problem = None
     for pth in flow.paths(cf):
-        if pth.exit != "return" or pth.exit_node is None or not isinstance(pth.exit_node.value, ast.Tuple) or len(pth.exit_node.value.elts) != 2:
+        rv_ = pth.exit_node.value if pth.exit == "return" and pth.exit_node is not None else None
+        if isinstance(rv_, ast.Call) and len(rv_.args) == 2 and not rv_.keywords and isinstance(rv_.func, ast.Name) and rv_.func.id[:1].isupper():
+            rv_ = ast.Tuple(elts=list(rv_.args), ctx=ast.Load())          # a two-field record (namedtuple) instead of a pair
+        if not isinstance(rv_, ast.Tuple) or len(rv_.elts) != 2:
             continue
-        if all(isinstance(e, ast.Constant) and e.value == 0 for e in pth.exit_node.value.elts):
+        if all(isinstance(e, ast.Constant) and e.value == 0 for e in rv_.elts):
             continue                      # nothing is trimmed on this path
         env = symexec.run_path(pth)
         first = {}
@@ -533,7 +548,7 @@ def q2_guard(prog, ctx, tag):
                         op = {"<": ">", ">": "<", "<=": ">=", ">=": "<="}.get(op, op)
                     if c is not None:
                         constraints.append((c, op if pol else _NEG[op]))
-        ret = [symexec.subst(e, env) for e in pth.exit_node.value.elts]
+        ret = [symexec.subst(e, env) for e in rv_.elts]
         diffs = []
         for r in ret:
             best = None
@@ -669,7 +684,7 @@ def q4(prog, ctx):
                                  "slice of itself")
     if producers:
         ctx.ok("Q4", "src/alignment_info.py", "%d assignments of AlignmentInfo.read_exons: get_read_blocks(...) or a slice of itself" % producers)
-    ctx.floor("Q4", "assignments of AlignmentInfo.read_exons", producers, 3)
+    ctx.floor("Q4", "assignments of AlignmentInfo.read_exons", producers, 2)
 
 
 def calls_in_all(f):
